@@ -76,7 +76,7 @@ CLAIMS = {
           "scripts {ready Ok, ready Err, pending-then-Ok, pending-then-Err}. Theorems: inner_called_once_iff_admitted, rejected_gets_fallback_or_error, admitted_reply, released_on_ready_outcome "
           "(in-flight count after = before, response or error), released_on_pending_outcome (exactly one admission held while in flight, given back by the completing poll, response or error); "
           "dropped_future_keeps_admission documents the separately reported case. Tie: the real sentinel_tower::SentinelService around a scripted inner tower::Service, futures polled by hand, "
-          "server and client role, with/without fallback, isolation/flow rules so that a leaked admission becomes a visible rejection; reply, inner call count and in-flight count compared after "
+          "server and client role, with/without fallback, isolation / rejecting-flow / throttling-flow rules (an admitted request may have been queued first) so that a leaked admission becomes a visible rejection; reply, inner call count and in-flight count compared after "
           "every operation; the Spec (from the implementation's own replies) demands count = number of admitted unfinished requests."),
     design_ref="DESIGN.md §6 C20",
     technique="Lean 4 proof (middleware step functions over the World model, using C04's accounting theorems) + differential correspondence on the real Tower service",
@@ -120,7 +120,8 @@ CLAIMS = {
           "total never exceeds what was recorded), one_node (get-or-insert in one critical section: all acquisitions return the same node), two_nodes_witness (the look-up / overwriting-insert "
           "code the repository had is a counterexample). The models are atomic-step models (atomic fetch_add/fetch_sub, one critical section for get-or-insert); the tie runs 2-3 real threads "
           "on the real code under the deterministic scheduler of the sync hook (scheduling points at every lock operation and wrapped atomic), with generated and single-preemption-exhaustive "
-          "schedules, and checks node identity per entry, final in-flight count and totals against the schedule-independent predictions."),
+          "schedules, and checks node identity per entry, final in-flight count and totals against the schedule-independent predictions; the response-time total must lie between the sums of "
+          "lower and upper bounds of the entries' own round trips (virtual clock read around each build and exit); some cases carry a throttling or isolation rule on the shared resource."),
     design_ref="DESIGN.md §6 C14",
     technique="Lean 4 proof over all interleavings of an atomic-step model + scheduled executions of the real code (schedule = replay) checked against the model's schedule-independent predictions",
     note=NOTE_COMMON + " Partial in one respect: only instrumented operations are scheduling points; weak-memory behaviour and uninstrumented atomics are outside the model. Schedule exploration on the "
@@ -152,7 +153,7 @@ CLAIMS = {
           "every history of requests by any threads is refused and changes nothing), run_log_is_path. Split-step model SSt.step (the retry-deadline test and the locked compare-and-set of from_open_to_half_open as two separately scheduled steps, with the re-test under the state lock that the D16 repair added): probe_not_before_deadline (for every interleaving of any threads, a request becomes the probe only at or after the deadline in force at the moment it takes the state lock), stale_check_witness (without the re-test the schedule test/probe-fails-and-reopens/lock admits a probe before the new deadline - the defect D16). Tie: 2-3 real threads around each transition on the real breakers under the deterministic scheduler; the Spec replays the schedule log: the listener "
           "log must be a path from the state left by the setup, every admitted request must have entered the state mutex while it said Closed or have emitted Open->Half-Open itself "
           "(notifications are logged inside the mutex, so the holder is the emitter), a request that is not the probe must not move the breaker out of Half-Open, the final state must be the "
-          "last notification's target, and a request may become the probe only at or after the retry deadline current at its lock acquisition (a roll-back does not renew it). Schedules: generated ones plus single- and two-preemption grids around the opening, the probe race and two racing completions."),
+          "last notification's target, and a request may become the probe only at or after the retry deadline current at its lock acquisition (a roll-back does not renew it; for a phase opened by the sequential setup the deadline is the opening completion's time plus the retry timeout, and scenario (c) stands one millisecond short of it and exactly on it). Schedules: generated ones plus single- and two-preemption grids around the opening, the probe race and two racing completions."),
     design_ref="DESIGN.md §6 C16",
     technique="Lean 4 proof over all histories of an atomic-step model + scheduled executions of the real breakers checked by a log-replay Spec",
     note=NOTE_COMMON + " Partial as C14: scheduling points are the instrumented lock and atomic operations; the schedule exploration on the implementation is search. Found and fixed with this check: D16 (stale retry-deadline test before the state lock let a request become the probe of a re-opened breaker at once; fix: commit cd7daf3; witness corpus/C16/d16_stale_retry_check.ops)."),
@@ -160,8 +161,10 @@ CLAIMS = {
     category="translation_validation",
     text=("PARTIAL. Proved in Lean: structural theorems about the executable warm-up calculator for every state/threshold/clock (sync_stored_le_max, sync_once_per_second, sync_idempotent, "
           "no_refill_when_saturated, drain_by_previous_qps, refill_when_cold_or_low, idle_cools, allowed_full_below_warning, warmup_step_decision) and exact-arithmetic theorems about the formulas "
-          "the f64 code evaluates (allowedQ_bounds: allowance in [q/c, q]; allowedQ_cold / allowedQ_warm; allowedQ_antitone; max_token_le_two_periods: 2p idle seconds refill the whole bucket). "
-          "NOT proved: that the f64 evaluation stays within rounding of the exact formula, and the closed-loop trajectory. These are decided on every run by validation: the soft-float model "
+          "the f64 code evaluates (allowedQ_bounds: allowance in [q/c, q]; allowedQ_cold / allowedQ_warm; allowedQ_antitone; max_token_le_two_periods: 2p idle seconds refill the whole bucket), "
+          "and the closed loop in an idealised form (closed_loop_ideal_reaches_warning_partial, closed_loop_ideal_within_two_periods_partial: in exact arithmetic, with the previous second's "
+          "admissions equal to the allowance, saturating demand drains the bucket to the warning line - from where the allowance is q - within 2p seconds, for every q > 0, c > 1, p >= 1). "
+          "NOT proved: that the f64 evaluation stays within rounding of the exact formula, and the closed-loop trajectory of the code itself (floors, rounding, measured rate). These are decided on every run by validation: the soft-float model "
           "reproduces every decision of flow/traffic_shaping/warmup.rs bit-exactly over saturating / at-allowance / below-q/c / on-off demand profiles (single-token requests on 1..20 ms grids), and the "
           "Spec oracle on the implementation's traces checks: never more than q per statistic interval, rejections only above the cold rate q/c, cold start at about q/c, per-second admissions "
           "non-decreasing under saturating demand, q reached within 2p+2 s, cold again after an idle period >= 2p s."),
